@@ -91,16 +91,16 @@ example : ((exec (fresh (some (b "user@example.org")) (some (b "secret")) false 
     [(.hdr (b "example.org") none false, false), (.starttls, false),
      (.hdr (b "example.org") (some (b "user@example.org")) false, true),
      (.auth (b "PLAIN") true, true)] := by
-  decide
+  decide +kernel
 
 /-- in the same history STARTTLS was requested (TLS not disabled) and PLAIN was chosen with nothing stronger on
     offer, under MANDATORY_TLS, inside TLS -/
 example : ((exec (fresh (some (b "user@example.org")) (some (b "secret")) false 2) demo).tx.any fun r =>
-    r.item = .starttls && !r.snap.tlsDisabled && !r.tlsDisabledW) = true := by decide
+    r.item = .starttls && !r.snap.tlsDisabled && !r.tlsDisabledW) = true := by decide +kernel
 
 example : ((exec (fresh (some (b "user@example.org")) (some (b "secret")) false 2) demo).tx.any fun r =>
     r.item = .auth (b "PLAIN") true && r.mandatoryW && r.snap.mandatory && r.sec &&
-      r.snap.g.offeredMechs &&& strongerMask == 0) = true := by decide
+      r.snap.g.offeredMechs &&& strongerMask == 0) = true := by decide +kernel
 
 /-- legacy authentication is used when the flag is set and the server offers no SASL mechanism -/
 def demoLegacy : List Op :=
@@ -110,6 +110,6 @@ def demoLegacy : List Op :=
 
 example : ((exec (fresh (some (b "user@example.org/res")) (some (b "secret")) false 16) demoLegacy).tx.any fun r =>
     r.item = .legacy (b "user") (b "res") true && r.snap.authLegacy && r.snap.isClient && r.legacyW) = true := by
-  decide
+  decide +kernel
 
 end Strophe.C02
